@@ -113,10 +113,21 @@ fn enc64(v: f64) -> Value {
     let k = key(v);
     json!(["s", neg, l, exact, [(k >> 44) as u32, ((k >> 22) & 0x3f_ffff) as u32, (k & 0x3f_ffff) as u32]])
 }
+thread_local! {
+    /// answers are reported in units of 2^-OUT_POW2 (an exact change of units; 0 = as they are)
+    static OUT_POW2: std::cell::Cell<i32> = const { std::cell::Cell::new(0) };
+}
 fn enc<T: FloatT>(v: Option<T>) -> Value {
     match v {
         None => json!(["n"]),
-        Some(x) => enc64(x.to64()),
+        Some(x) => {
+            let k = OUT_POW2.with(|c| c.get());
+            if k == 0 {
+                enc64(x.to64())
+            } else {
+                enc64(x.to64() * 2.0f64.powi(k))
+            }
+        }
     }
 }
 
@@ -673,6 +684,7 @@ fn mode_table(inp: &str, out: &str) {
         .map(|a| a.iter().map(|x| x.as_i64().unwrap()).collect())
         .unwrap_or_default();
     let pow2 = scope.get("pow2").and_then(|p| p.as_i64()).unwrap_or(0) as i32;
+    OUT_POW2.with(|c| c.set(scope.get("outpow2").and_then(|p| p.as_i64()).unwrap_or(0) as i32));
     for (ci, cfg) in scope["cfgs"].as_array().unwrap().iter().enumerate() {
         // a per-configuration maxlen may override the scope's
         let ml = cfg.get("maxlen").and_then(|m| m.as_u64()).map(|m| m as usize).unwrap_or(maxlen);
